@@ -2,6 +2,7 @@ package rules
 
 import (
 	"go/ast"
+	"go/token"
 	"strings"
 
 	"engcheck/core"
@@ -193,39 +194,235 @@ func c12Shutdown(c *core.Ctx) {
 
 func c12TeardownOrdering(c *core.Ctx) {
 	const R = "C12.4"
-	c.Rule(R, "connection teardown must not overtake the last batch: websocket/webTransport DoClose closes the connection while a send goroutine spawned by Send may still be writing (flush emits drain right after Send merely spawned it, which releases Close's Once(\"drain\")); structurally DoClose must at least acquire the transport's write mutex — the one send holds — before closing the connection")
-	for _, sp := range []struct{ fn, lock, closer string }{
-		{"transports.(*websocket).DoClose", "websocket.mu", "Close"},
-		{"transports.(*webTransport).DoClose", "webTransport.mu", "CloseWithError"},
+	c.Rule(R, "connection teardown does not overtake the last batch (fix af10393): websocket / webTransport Send counts the batch (sends.begin()) before it spawns the writer (`go w.send`), the writer's end() is deferred so that it runs on every exit of send, and DoClose closes the connection directly only when no completion callback was given (a failed session, a refused candidate) or the transport is discarded — a close that was asked for (Socket.Close(false)) goes through closeAfter(sends.done(), …): at once when the writer is idle, otherwise from a goroutine that waits for idle or a bounded timer; the tracker's counter, its idle channel and their hand-over are touched under its mutex only")
+	for _, sp := range []struct{ typ, closer string }{
+		{"websocket", "Close"},
+		{"webTransport", "CloseWithError"},
 	} {
-		u := c.Fn(R, sp.fn)
-		if u == nil {
-			continue
-		}
-		n := 0
-		for _, cl := range u.Calls() {
-			if cl.Name != sp.closer || cl.Recv == nil {
-				continue
+		base := "transports.(*" + sp.typ + ")."
+		// Send: begin ≺ go send, unconditionally
+		if u := c.Fn(R, base+"Send"); u != nil {
+			g := u.Graph()
+			var begin, spawn *core.Call
+			for _, cl := range u.Calls() {
+				if cl.Key == "transports.(*sendTracker).begin" {
+					begin = cl
+				}
+				if cl.Go && cl.Key == base+"send" {
+					spawn = cl
+				}
 			}
-			tn := core.TypeName(u.Info().TypeOf(cl.Recv))
-			if tn != "WebSocketConn" && tn != "WebTransportConn" {
-				continue
-			}
-			n++
-			held := u.Graph().HeldAt(cl.Loc)
-			// a deferred close runs at exit: it is ordered after send only if the lock was taken in this function
-			ok := held[sp.lock]
-			if !ok {
-				for _, l := range u.Calls() {
-					if l.Name == "Lock" && l.Recv != nil && core.LockKey(u.Info(), l.Recv) == sp.lock {
-						ok = true
+			ok := begin != nil && spawn != nil && !begin.Go && !begin.Deferred && g.Dominates(begin.Loc, spawn.Loc)
+			if ok {
+				for _, f := range g.Facts() {
+					if g.EdgeDominates(f.Br.B, f.Edge, spawn.Loc) && !g.EdgeDominates(f.Br.B, f.Edge, begin.Loc) {
+						ok = false // a writer that is spawned where the batch was not counted
 					}
 				}
 			}
-			c.Check(R, sp.fn+"/close-without-send-ordering", cl.Pos(), ok, "the connection is closed with no ordering edge to an in-flight send goroutine: the last batch can be lost (send-then-close)")
+			c.Check(R, base+"Send/batch-counted-before-the-writer-is-spawned", u.Pos(), ok, "sends.begin() precedes `go w.send(packets)` on every path to it")
 		}
-		c.Need(R, "connection close in "+sp.fn, n, 1)
+		// send: end() deferred, registered before the write loop
+		if u := c.Fn(R, base+"send"); u != nil {
+			g := u.Graph()
+			ok := false
+			for _, cl := range u.Calls() {
+				if cl.Key != "transports.(*sendTracker).end" || !cl.Deferred {
+					continue
+				}
+				ok = true
+				for _, wr := range u.Calls() {
+					if (wr.Name == "write" || wr.Name == "WritePreparedMessage" || wr.Name == "EncodePacket") && !g.Dominates(cl.Loc, wr.Loc) {
+						ok = false
+					}
+				}
+				for _, r := range returnsIn(u) {
+					ok = ok && g.Dominates(cl.Loc, r.Loc)
+				}
+			}
+			c.Check(R, base+"send/end-of-the-batch-deferred-ahead-of-the-writes", u.Pos(), ok, "defer sends.end() is registered before anything is written and before every return: the count drops on every exit of the writer")
+		}
+		// DoClose
+		u := c.Fn(R, base+"DoClose")
+		if u == nil {
+			continue
+		}
+		g := u.Graph()
+		pn := paramName(u, 0)
+		noCallback := func(x *core.Unit, br core.Branch) int { // fn == nil
+			cmp, ok := x.BranchCmp(br)
+			if !ok || cmp.Y == nil || !core.IsNil(x.Info(), cmp.Y) || !isLocal(x.Info(), cmp.X, pn) {
+				return 0
+			}
+			switch cmp.Op {
+			case token.EQL:
+				return 1
+			case token.NEQ:
+				return -1
+			}
+			return 0
+		}
+		discarded := boolCallGuard(true, "transports.(Transport).Discarded", "transports.(*transport).Discarded")
+		n := 0
+		for _, x := range u.AllUnits() {
+			for _, cl := range x.Calls() {
+				if cl.Name != sp.closer || cl.Recv == nil {
+					continue
+				}
+				tn := core.TypeName(x.Info().TypeOf(cl.Recv))
+				if tn != "WebSocketConn" && tn != "WebTransportConn" {
+					continue
+				}
+				n++
+				ok := false
+				detail := ""
+				if x == u {
+					// a direct close: only where nothing was asked to be delivered — on the other edge of
+					// `fn == nil || Discarded()` neither holds, so the direct close must not be reachable there
+					direct := !g.GuardedBy(cl.Loc, gNot(noCallback)) || !g.GuardedBy(cl.Loc, gNot(discarded))
+					wanted := g.GuardedBy(cl.Loc, gNot(noCallback)) && g.GuardedBy(cl.Loc, gNot(discarded))
+					ok, detail = direct && !wanted, "direct close off the edge (callback given ∧ not discarded)"
+				} else {
+					// inside a closure: the closure must be the one handed to closeAfter together with sends.done()
+					for _, ca := range u.CallsTo("transports.closeAfter") {
+						if closureArg(u, ca, 1) != x {
+							continue
+						}
+						if ce, key := u.AsCall(ca.Arg(0)); ce != nil && key == "transports.(*sendTracker).done" {
+							ok, detail = true, "closure handed to closeAfter(sends.done(), …)"
+						}
+					}
+				}
+				c.Check(R, keyf("%sDoClose/close#%d-ordered-after-the-batch-in-flight", base, n), cl.Pos(), ok, detail)
+			}
+		}
+		c.Need(R, "connection closes in "+base+"DoClose", n, 2)
+		// the wait is for a close that was asked for, only: a failed session (no callback) or a discarded transport
+		// must not keep connection, writer and batch for the writer's sake (review of the fix: 30 s per stalled peer)
+		for _, ca := range u.CallsTo("transports.closeAfter") {
+			c.Check(R, base+"DoClose/wait-only-for-a-requested-close", ca.Pos(), g.GuardedBy(ca.Loc, gNot(noCallback)) && g.GuardedBy(ca.Loc, gNot(discarded)),
+				"closeAfter is reached only with a completion callback and a transport that is not discarded")
+		}
 	}
+	// closeAfter: direct only on the idle edge, otherwise from a goroutine after idle or a bounded timer
+	if u := c.Fn(R, "transports.closeAfter"); u != nil {
+		idleP, closeP := paramName(u, 0), paramName(u, 1)
+		direct, spawned, bounded := 0, 0, false
+		for _, x := range u.AllUnits() {
+			for _, cl := range x.Calls() {
+				if cl.Callee == nil && cl.Name == closeP {
+					if x == u {
+						direct++
+					} else {
+						spawned++
+					}
+				}
+			}
+		}
+		// the direct call sits in the comm clause that received from idle
+		inIdleCase := false
+		ast.Inspect(u.Body, func(n ast.Node) bool {
+			if _, isLit := n.(*ast.FuncLit); isLit {
+				return false
+			}
+			cc, isCC := n.(*ast.CommClause)
+			if !isCC || cc.Comm == nil {
+				return true
+			}
+			recv := false
+			ast.Inspect(cc.Comm, func(y ast.Node) bool {
+				if ue, isU := y.(*ast.UnaryExpr); isU && ue.Op == token.ARROW && isLocal(u.Info(), ue.X, idleP) {
+					recv = true
+				}
+				return true
+			})
+			for _, st := range cc.Body {
+				ast.Inspect(st, func(y ast.Node) bool {
+					if ce, isC := y.(*ast.CallExpr); isC && isLocal(u.Info(), ce.Fun, closeP) && recv {
+						inIdleCase = true
+					}
+					return true
+				})
+			}
+			return true
+		})
+		goes := false
+		for _, cl := range u.Calls() {
+			if cl.Go {
+				goes = true
+			}
+		}
+		// bounded: in the spawned goroutine the receive from idle is one case of a select whose other case receives from
+		// a timer (time.After(…) or a Timer's C) — a bare `<-idle` waits for a writer that a silent peer blocks for ever
+		for _, x := range u.AllUnits() {
+			if x == u {
+				continue
+			}
+			bare := false
+			ast.Inspect(x.Body, func(n ast.Node) bool {
+				switch st := n.(type) {
+				case *ast.SelectStmt:
+					hasIdle, hasTimer := false, false
+					for _, cs := range st.Body.List {
+						cc, _ := cs.(*ast.CommClause)
+						if cc == nil || cc.Comm == nil {
+							continue
+						}
+						ast.Inspect(cc.Comm, func(y ast.Node) bool {
+							ue, isU := y.(*ast.UnaryExpr)
+							if !isU || ue.Op != token.ARROW {
+								return true
+							}
+							if isLocal(x.Info(), ue.X, idleP) {
+								hasIdle = true
+							} else if ce, key := x.AsCall(ue.X); ce != nil && key == "time.After" {
+								hasTimer = true
+							} else if se, isS := ast.Unparen(ue.X).(*ast.SelectorExpr); isS && se.Sel.Name == "C" && core.TypeName(x.Info().TypeOf(se.X)) == "Timer" {
+								hasTimer = true
+							}
+							return true
+						})
+					}
+					if hasIdle && hasTimer {
+						bounded = true
+					}
+					return false
+				case *ast.ExprStmt:
+					if ue, isU := ast.Unparen(st.X).(*ast.UnaryExpr); isU && ue.Op == token.ARROW && isLocal(x.Info(), ue.X, idleP) {
+						bare = true
+					}
+				}
+				return true
+			})
+			if bare {
+				bounded = false
+			}
+		}
+		c.Check(R, "transports.closeAfter/idle→close-now,else→goroutine(idle|timer)→close", u.Pos(), direct == 1 && inIdleCase && spawned == 1 && goes && bounded,
+			keyf("direct close in the case that received from idle: %v (%d); one close from a spawned goroutine: %v (%d) whose wait is bounded by a timer: %v", inIdleCase, direct, goes, spawned, bounded))
+	}
+	// the tracker's state is touched under its mutex
+	n := 0
+	for _, u := range c.P.Units {
+		if !strings.HasPrefix(u.Key, "transports.(*sendTracker).") {
+			continue
+		}
+		g := u.Graph()
+		ast.Inspect(u.Body, func(nd ast.Node) bool {
+			se, isS := nd.(*ast.SelectorExpr)
+			if !isS {
+				return true
+			}
+			f := fieldOf(u.Info(), se)
+			if f != "sendTracker.n" && f != "sendTracker.idle" {
+				return true
+			}
+			n++
+			c.Check(R, keyf("%s/access(%s)#%d-under-sendTracker.mu", u.Key, f, n), se.Pos(), g.HeldAt(g.LocOf(se))["sendTracker.mu"], "counter and idle channel are read and written with the tracker's mutex held")
+			return true
+		})
+	}
+	c.Need(R, "accesses of the send tracker's state", n, 6)
 }
 
 func c12CallbackBeforeTeardown(c *core.Ctx) {
